@@ -349,7 +349,7 @@ func dominatedByNonNilEdge(v ssa.Value, b *ssa.BasicBlock) bool {
 		}
 		for s := 0; s < 2; s++ {
 			if id.Succs[s] == d && len(d.Preds) == 1 {
-				if EdgeImplies(ifi, s, Rel{Op: token.NEQ, X: func(x ssa.Value) bool { return x == v }, Y: IsNil()}, false) {
+				if EdgeImplies(ifi, s, Rel{Op: token.NEQ, X: func(x ssa.Value) bool { return x == v || sameValue(x, v) }, Y: IsNil()}, false) {
 					return true
 				}
 			}
